@@ -135,7 +135,7 @@ def run(rep: Report, tier: str) -> None:
 		k = unparse(n.targets[0].slice)
 		rb.check((f'{k} in self.__instances', False) in facts(rx, n), 'resolve-singleton', res.where, f'resolve must create the instance only when absent (one instance per binding generation): `{unparse(n)}` runs under {facts(rx, n)}', unparse(n))
 	lz_res = lazy.method('resolve')
-	rb.check(lz_res is not None and '__bind_proxy' in unparse(lz_res.node) and 'super().resolve(symbol)' in unparse(lz_res.node), 'lazy-resolve-binds-proxy', lz_res.where if lz_res else lazy.where, 'LazyDI.resolve no longer binds the lazily registered definition before delegating')
+	rb.check(lz_res is not None and has_call(X(lz_res), '__bind_proxy') and any(isinstance(c_.func, ast.Attribute) and c_.func.attr == 'resolve' and isinstance(c_.func.value, ast.Call) and unparse(c_.func.value.func) == 'super' for c_ in nodes(X(lz_res), ast.Call)), 'lazy-resolve-binds-proxy', lz_res.where if lz_res else lazy.where, 'LazyDI.resolve no longer binds the lazily registered definition before delegating')
 
 	# ---- (b2) store keys are normalised symbols ------------------------------------------------------------------------
 	rk = rep.rule('C19/store-keys-normalised', 'every key used to index / test / delete the binding stores is the normalised symbol (result of _acceptable_symbol / __find_symbol for DI, __symbolize for LazyDI), never the raw argument', floor=10)
